@@ -50,6 +50,12 @@ class _S:
     def tolist(self):
         return list(self.v)
 
+    def __iter__(self):
+        return iter(self.v)
+
+    def __len__(self):
+        return len(self.v)
+
     def bfill(self):
         return self
 
@@ -96,6 +102,10 @@ class _S:
     def __ge__(self, other):
         return _S([a >= b for a, b in zip(self.v, other.v)])
 
+
+from dask.dataframe.dispatch import tolist_dispatch
+
+tolist_dispatch.register(_S)(lambda obj: list(obj.v))
 
 _PD = SimpleNamespace(isna=lambda x: x.isna(), CategoricalDtype=_pandas.CategoricalDtype, api=_pandas.api, Series=_S)
 
@@ -205,3 +215,122 @@ def api_presorted(mins, maxes, asc):
         if got.values.tolist() != want.values.tolist():
             msgs.append(f"sort_values(['a', 'b'], ascending={asc}) gives {got.values.tolist()}, pandas {want.values.tolist()}")
         return bool(msgs), "; ".join(msgs) or f"keys {keys}: divisions truthful and sort equals pandas"
+
+
+# ---- sorted=True / compute_current_divisions: partition statistics and the overlap-resolving layer -------------------------------
+
+def _refs(t, src):
+    """source partitions mentioned inside a task"""
+    out = []
+    if isinstance(t, tuple) and len(t) == 2 and t[0] == src and isinstance(t[1], int):
+        return [t[1]]
+    if isinstance(t, (tuple, list)):
+        for x in t:
+            out += _refs(x, src)
+    return out
+
+
+def _overlap_wiring(mins, maxes, lens):
+    import dask_expr._collection as coll
+    import dask_expr._expr as ex
+
+    n = len(lens)
+    non_empty = [i for i in range(n) if lens[i] != 0]
+    for i in range(n):
+        if lens[i] < 0 or (lens[i] != 0 and not mins[i] <= maxes[i]):
+            return 0
+    ne_mins = [mins[i] for i in non_empty]
+    ne_maxes = [maxes[i] for i in non_empty]
+    if sorted(ne_mins) != ne_mins or sorted(ne_maxes) != ne_maxes:
+        return 0  # rejected by the function (ValueError), not in scope here
+    # what compute() hands back: per-partition minima / maxima (an empty partition has none; bfill gives it its successor's)
+    saved = coll.compute
+    coll.compute = lambda *a, **k: (_S(mins), _S(maxes), _S(lens))
+    try:
+        column = SimpleNamespace(map_partitions=lambda *a, **k: None, name="a")
+        m2, x2, l2 = coll._compute_partition_stats(column, allow_overlap=True)
+    finally:
+        coll.compute = saved
+    e = object.__new__(ex.ResolveOverlappingDivisions)
+    e.operands = [SimpleNamespace(_name="src", npartitions=n, _meta=None, divisions=(None,) * (n + 1)), m2, x2, l2]
+    object.__setattr__(e, "_name", "resolve-tok")
+    divs = ex.ResolveOverlappingDivisions._divisions(e)
+    object.__setattr__(e, "divisions", divs)
+    dsk = ex.ResolveOverlappingDivisions._layer(e)
+    if not non_empty:
+        return 1 if dsk == {("resolve-tok", 0): ("src", 0)} else 2
+    if len(divs) != len(non_empty) + 1:
+        return 2  # reported partition count differs from the number of non-empty inputs
+    for i, src_i in enumerate(non_empty):
+        if ("resolve-tok", i) not in dsk:
+            return 2
+        refs = _refs(dsk[("resolve-tok", i)], "src")
+        # output i is built from the i-th non-empty input (plus boundary rows of earlier non-empty inputs), never from an empty one
+        if src_i not in refs:
+            return 2
+        for r in refs:
+            if r not in non_empty or r > src_i:
+                return 2
+        if divs[i] != mins[src_i]:
+            return 2
+    if divs[-1] != maxes[non_empty[-1]]:
+        return 2
+    return 1
+
+
+def overlap_wiring_3(mins: Tuple[int, int, int], maxes: Tuple[int, int, int], lens: Tuple[int, int, int]) -> int:
+    """
+    pre: True
+    """
+    return _overlap_wiring(mins, maxes, lens)
+
+
+def overlap_wiring_4(mins: Tuple[int, int, int, int], maxes: Tuple[int, int, int, int], lens: Tuple[int, int, int, int]) -> int:
+    """
+    pre: True
+    """
+    return _overlap_wiring(mins, maxes, lens)
+
+
+for _n in (3, 4):
+    HARNESSES.append(dict(module=__name__, fn=f"overlap_wiring_{_n}", props=["C06", "C02"], tier="quick" if _n == 3 else "thorough", timeout=150,
+                          bounds=f"{_n} input partitions; per-partition minima, maxima and lengths unbounded symbolic ints (lengths >= 0, empty partitions anywhere), sorted non-empty ranges",
+                          functions=["dask_expr._collection._compute_partition_stats (compute() stubbed with the symbolic statistics)", "dask_expr._expr.ResolveOverlappingDivisions._divisions", "ResolveOverlappingDivisions._layer"],
+                          api_replay="api_overlap_wiring"))
+
+
+def api_overlap_wiring(mins, maxes, lens):
+    """public API: set_index(sorted=True) on a frame with the given per-partition ranges (empty partitions included) returns all rows
+    inside truthful divisions"""
+    import warnings
+
+    import dask
+    import pandas as pd
+    from dask import delayed
+
+    import dask_expr as dx
+    from ._kutil import in_part
+
+    parts = []
+    for lo, hi, ln in zip(mins, maxes, lens):
+        ln = min(int(ln), 3)
+        keys = [] if ln == 0 else ([int(lo)] if ln == 1 else [int(lo)] + [int(hi)] * (ln - 1))
+        parts.append(pd.DataFrame({"a": pd.array(keys, dtype="int64"), "b": range(len(keys))}))
+    total = sum(len(p) for p in parts)
+    if total == 0:
+        return False, "no rows"
+    with dask.config.set({"dataframe.convert-string": False}), warnings.catch_warnings():
+        warnings.simplefilter("ignore")
+        df = dx.from_delayed([delayed(p) for p in parts], meta=parts[0].iloc[:0], verify_meta=False)
+        out = df.set_index("a", sorted=True)
+        divs = out.divisions
+        got = [out.partitions[i].compute() for i in range(out.npartitions)]
+        msgs = []
+        if sum(len(g) for g in got) != total:
+            msgs.append(f"{sum(len(g) for g in got)} rows come back, {total} went in")
+        if all(d is not None for d in divs):
+            for j, g in enumerate(got):
+                bad = [int(v) for v in g.index if not in_part(divs, j, int(v))]
+                if bad:
+                    msgs.append(f"partition {j} holds index values {bad} outside divisions {divs}")
+        return bool(msgs), "; ".join(msgs) or "all rows inside truthful divisions"
